@@ -83,6 +83,10 @@ func CalculateStagedRate(
 	distributionTypeArg string,
 	startTime *time.Time,
 ) (*api.Rates, error) {
+	if frequency <= 0 {
+		return nil, fmt.Errorf("iteration frequency %s must be positive", frequency)
+	}
+
 	stages, err := ParseStages(stg)
 	if err != nil {
 		return nil, fmt.Errorf("parsing stages: %w", err)
